@@ -4,4 +4,5 @@ pub mod engine;
 pub mod hmodel;
 pub mod props;
 pub mod scan;
+pub mod sps;
 pub mod surfgen;
